@@ -107,7 +107,17 @@ def _linear_pad(x, pad_width, mode="constant", **kwargs):
 Transpose = linop_from_function(snp.transpose, "Transpose", "scico.numpy.transpose")
 Reshape = linop_from_function(snp.reshape, "Reshape")
 Pad = linop_from_function(_linear_pad, "Pad", "scico.numpy.pad")
-Sum = linop_from_function(snp.sum, "Sum")
+
+
+def _linear_sum(x, *args, **kwargs):
+    """:func:`scico.numpy.sum` restricted to the options for which summation is a linear map."""
+    initial = kwargs.get("initial", args[4] if len(args) > 4 else None)
+    if initial is not None and np.any(np.asarray(initial) != 0):
+        raise ValueError("Parameter initial must be zero for the sum to be a linear operator.")
+    return snp.sum(x, *args, **kwargs)
+
+
+Sum = linop_from_function(_linear_sum, "Sum", "scico.numpy.sum")
 
 
 class Crop(LinearOperator):
